@@ -2,7 +2,9 @@
    - the metadata normalisation every Table constructor call performs,
    - orientation (operate on rows whatever the requested axis is),
    - sorted(...) over id codes (the harness gives order preserving codes),
-   - sort_order on the column axis. *)
+   - sort_order on the column axis.
+   Line numbers cite biom/table.py of the pinned tree (32a1913a, as in properties.jsonl); later
+   repairs shift them by a few dozen lines, the statement order inside each method is unchanged. *)
 From Coq Require Import List Arith ZArith Lia Bool.
 From BiomV Require Import Base.Tree Base.ListUtil Base.Matrix Model.Table.
 Import ListNotations.
